@@ -66,6 +66,10 @@ class Mixin: pass
 class MixinArgs:
     def __init__(self, *a): self.a = a
 class ModMixin(Mixin, Exception): pass
+class FalsyLen(Exception):
+    def __len__(self): return 0
+class FalsyBool(Exception):
+    def __bool__(self): return False
 class StrSub(str): pass
 class Color(enum.IntEnum):
     RED = 1
@@ -101,7 +105,7 @@ def setup(opts):
               "ExceptionGroup LookupError").split():
         CLASSES[n] = getattr(builtins, n)
     for n in ("ModLevel ModBase ModSubVal Rewrites KwOnly TwoPos ExtraPos SubRewrites SubTwoPos WithLock StrRaises "
-              "ReduceBad").split():
+              "ReduceBad FalsyLen FalsyBool").split():
         CLASSES[n] = getattr(ZOO, n)
     CLASSES.update({
         "Nested": ZOO.Outer.Nested, "Deep": ZOO.Outer.Inner.Deep,
@@ -387,6 +391,7 @@ def measure_node(e):
     n["own_ctor_ok"] = okc
     n["own_recon"] = bool(okc and type(inst) is cls and deep_eq(tuple(inst.args), args))
     n["importable"] = n["has_module"] and n["resolve"] == "RSelf"
+    n["truthy"] = tryf(lambda: bool(e))[1] is not False
     return n
 
 
@@ -460,7 +465,7 @@ def run_case(case, opts):
     for n, s in zip(nodes, specs):
         d = {k: n[k] for k in ("name", "qualname", "module", "has_module", "resolve", "accepts_text", "accepts_dict",
                                "recon_text", "recon_dict", "exc_rt_json", "exc_rt_pickle", "native", "native_same_class",
-                               "mro", "wrap_rt_json", "wrap_rt_pickle", "own_ctor_ok", "own_recon", "importable")}
+                               "mro", "wrap_rt_json", "wrap_rt_pickle", "own_ctor_ok", "own_recon", "importable", "truthy")}
         d["args"] = [{k: v for k, v in m.items() if k not in ("repr_text", "str_text", "loaded_text", "loaded_dict")}
                      for m in n["ms"]]
         d["cause"], d["context"], d["suppress"] = s.get("cause"), s.get("context"), bool(s.get("suppress"))
